@@ -18,7 +18,7 @@ RULE = (
     "at 9 parameters within the precision of the 12-digit writer. Non-trivial = a drawn segment exists."
 )
 BUDGET = {"quick": 5000, "thorough": 200000}
-TIME_CAP = {"quick": 70, "thorough": 1500}
+TIME_CAP = {"quick": 240, "thorough": 1500}
 ANCHORS = ["Path.svg_d", "Path.d", "Subpath.d", "Move.d", "Close.d", "Line.d", "QuadraticBezier.d", "CubicBezier.d", "Arc.d", "Point.__str__",
            "QuadraticBezier.is_smooth_from", "CubicBezier.is_smooth_from"]
 REQUIRED_MONITORS = ["roundtrip", "str-roundtrip", "subpath-roundtrip", "output-conforms"]
